@@ -48,6 +48,26 @@ def run(c: Check):
     for cfg, inv, what in SANITY:
         c.tlc_mc("DeviceAuth", cfg, expect_violation=inv, count=False, name="sanity: %s" % what)
 
+    # ---- binding lemma: the `sni` field of the vectors is the server name of the TLS handshake
+    outs, _ = c.go_harness("internal/dnsserver", "^TestVerifC03ServerName$", files=["c03sni_test.go", "vlab_test.go"], timeout=600)
+    sev = read_ndjson(outs)
+    reached = [e for e in sev if e["reached"]]
+    if len(reached) < 30 or not any(e["sni_sent"] == "" and e["host_hdr"] for e in reached):
+        raise Undecided("server-name harness vacuous: %d of %d requests reached the handler" % (len(reached), len(sev)))
+    spath = os.path.join(c.scratch, "c03sni.ndjson")
+    write_ndjson(spath, sev)
+    rs = c.tlc_trace("TraceServerName", "TraceServerName.cfg", spath, timeout=300)
+    if rs.tuples("STUCK"):
+        raise Undecided("server-name trace spec stuck")
+    c.cov["traces_validated_against_impl"] += len(sev) - len(rs.tuples("NONCONF"))
+    for e in sev:
+        c.count_case(("sni", e["t"], e["sni_sent"], e["host_hdr"]), nontrivial=e["sni_sent"] != e["host_hdr"])
+    for t in rs.tuples("NONCONF"):
+        e = sev[int(t[0]) - 1]
+        c.violation({"kind": "server-name", "t": e["t"]},
+                    "C03 %s request with TLS server name %r and Host header %r: the handler was given TLS server name %r "
+                    "(URL %r): %s" % (e["t"], e["sni_sent"], e["host_hdr"], e["sni_seen"], e["url_seen"], t[1]), e)
+
     env = {"VERIF_ROUNDS": 5 if th else 1, "VERIF_RANDOM": 150000 if th else 8000}
     out, _ = c.go_harness(PKG, "^TestVerifC03$", env=env, files=["c03_test.go"], timeout=1500)
     ev = read_ndjson(out)
